@@ -44,6 +44,11 @@ CLAIMED.update({
          "Trusted: go/ssa, symgo, the reachable-state invariant stated in harness/C19 (a removed name is absent from the pending set), memory base storages, recording hash, z3. Outside: filesystem bases, more than two names/objects, index/shallow/config/reflog overlays."),
 })
 
+CLAIMED.update({
+ "C24": ("Inductive-step solver verdict (no bound on history length): from an arbitrary SharedFile state satisfying the representation invariant (symbolic refs/flags/64-bit generation, armed or stale grace timer), any one of Acquire/Release/ReleaseNow/Close/Pinned/timer-firing preserves the invariant and never closes a descriptor a reader still holds (except explicit Close); the last Release arms a timer whose firing closes the idle descriptor; for fdpool.Pool, bounded Touch sequences keep the LRU within capacity, never evict the toucher, prefer unpinned victims and keep open handles <= capacity + pinned.",
+         "Trusted: go/ssa, symgo, the representation invariant in harness/C24, the timer model (callback may run once after Stop), mutex critical sections taken as atomic, z3. Outside: the Go scheduler/data races, packhandle wiring, pool sequences beyond the bounds."),
+})
+
 NA_REASON = {
  "C05": "needs the real SHA-1 compression function on published collision blocks and Go's cross-package init order; the hash is necessarily an uninterpreted stub under symbolic execution",
  "C11": "read paths = OS filesystem + real zlib + caches over histories; solver-sized pieces are claimed under C06/C09/C10/C24",
